@@ -485,7 +485,7 @@ func (st *State) failure(label string, cond []*term.T, detail string) {
 		copy(ins, st.inputs)
 		pre := make([]int32, len(st.record))
 		copy(pre, st.record)
-		f := Failure{Label: label, Known: known, Inputs: ins, Model: m, Detail: detail + st.scheduleString(), Prefix: pre, PCSize: len(st.pc), Approx: st.approx, VMOnly: st.vmOnlyFailure}
+		f := Failure{Label: label, Known: known, Inputs: ins, Model: m, Detail: detail + st.scheduleString(), Prefix: pre, PCSize: len(st.pc), Approx: st.approx, VMOnly: st.vmOnlyFailure || (st.sch.on && len(st.sch.log) > 0)}
 		f.PCScript = solver.Script(st.pc, cond)
 		return f
 	}
